@@ -5,7 +5,12 @@
           |  SVS i count {key kind n} | NEW count {key kind n}
           |  GV i key | RGV key | RGVC i key | HK i key | GSP i | CSP | DUMP {key} | EQ i j
           |  AT i | ATC | DT k | KT k | CUR | SC span | WAS span
-   Several wire operations (different C++ entry points) denote the same model operation. *)
+          |  ATT i key | ATP i key
+   Several wire operations (different C++ entry points) denote the same model operation.
+   ATT/ATP: Attach(Context(key, int64 i)) of a TEMPORARY - the driver keeps no reference to that Context value, so
+   that its node is released as soon as its frame is popped; [i] must be the name the new context gets.  It is the
+   two model operations "name Context(key, i)" and "attach it" (two outputs).  ATP cases run on the driver built
+   WITHOUT sanitizers (the allocator reuses freed addresses there), ATT cases on the ASan/UBSan driver. *)
 From V Require Export C10.Spec.
 Local Open Scope Z_scope.
 
@@ -127,13 +132,23 @@ Definition parse_op (l : list tok) : option op :=
       else None
   end.
 
+(* a wire operation as model operations *)
+Definition parse_wire_op (l : list tok) : option (list op) :=
+  match l with
+  | [t; TZ i; TB k] =>
+      if (is_tag "ATT" t || is_tag "ATP" t) && payload_ok KI i && (0 <=? i)
+      then Some [OSet (CIdx 0) k (KI, i); OAttach (CIdx (Z.to_nat i))]
+      else option_map (fun o => [o]) (parse_op l)
+  | _ => option_map (fun o => [o]) (parse_op l)
+  end.
+
 (* operations of one segment; empty pieces (e.g. an empty segment) are skipped *)
 Fixpoint parse_ops (l : list (list tok)) : option (list op) :=
   match l with
   | [] => Some []
   | [] :: l' => parse_ops l'
-  | o :: l' => match parse_op o, parse_ops l' with
-               | Some x, Some r => Some (x :: r)
+  | o :: l' => match parse_wire_op o, parse_ops l' with
+               | Some x, Some r => Some (x ++ r)
                | _, _ => None
                end
   end.
